@@ -85,7 +85,7 @@ impl<'a> EnumMessage<'a> {
         let msg_variants = variants.emit();
 
         let ctx_type = msg_ty.emit_ctx_type(query_type);
-        let dispatch_type = msg_ty.emit_result_type(resp_type, &parse_quote!(ContractT::Error));
+        let dispatch_type = msg_ty.emit_result_type(resp_type, &parse_quote!(SvContractT::Error));
 
         let used_generics = variants.used_generics();
         let unused_generics = variants.unused_generics();
@@ -116,7 +116,7 @@ impl<'a> EnumMessage<'a> {
             pub type #enum_name #bracketed_used_generics = #unique_enum_name #bracketed_used_generics;
 
             impl #bracketed_used_generics #unique_enum_name #bracketed_used_generics #where_clause {
-                pub fn dispatch<ContractT, #(#unused_generics,)*>(self, contract: &ContractT, ctx: #ctx_type)
+                pub fn dispatch<SvContractT, #(#unused_generics,)*>(self, contract: &SvContractT, ctx: #ctx_type)
                     -> #dispatch_type
                 where
                     #(#where_predicates,)*
